@@ -113,6 +113,11 @@ def close(a, b, exact, tolr=1e-5):
     return abs(a - b) <= tolr * max(1.0, abs(b))
 
 
+def half_step(t, dt):
+    """time exactly midway between two samples: 'nearest' is decided by float rounding when dt is not representable"""
+    return (F(t) / F(dt)) % 1 == F(1, 2)
+
+
 def dyadic(t):
     d = F(t).denominator
     return d <= 64 and d & (d - 1) == 0
@@ -124,7 +129,8 @@ class Ring:
     def __init__(self, dt, N, E, pushes):
         self.dt, self.N, self.E = dt, N, E
         self.mod = inferno.Module()
-        RecordTensor.create(self.mod, "rec", float(dt), float(dt) * (N - 1), torch.zeros(E), inclusive=True)
+        # (a hair below dt*(N-1) so that a non-representable ratio such as 3.9/1.3 does not round the size up)
+        RecordTensor.create(self.mod, "rec", float(dt), max(float(dt) * (N - 1) - 1e-9, 0.0), torch.zeros(E), inclusive=True)
         self.rt = self.mod.rec
         assert self.rt.recordsz == N, (self.rt.recordsz, N)
         self.M = [[0.0] * E for _ in range(N)]
@@ -159,6 +165,10 @@ def shard(dtf, N, tier, pushes_list=None):
     tally = Tally()
     quick = tier == "quick"
     tols = [F(0), F(1, 1000000), dt / 4]
+    nondyadic_dt = not dyadic(dt)
+    if nondyadic_dt:
+        # non-representable step time: only a tolerance that dominates rounding gives a defined classification
+        tols = [F(1, 1000000)]
     E = 2
     for pushes in (pushes_list or range(N, 2 * N)):  # full record, every pointer position
         ring = Ring(dt, N, E, pushes)
@@ -201,8 +211,11 @@ def shard(dtf, N, tier, pushes_list=None):
                         tally.mark("outcome", (kind, iname))
                         tally.mark("nontrivial", (float(dt), N, pushes % N, off, float(tol), float(t), iname, kind))
                         scalar_res[t] = got
+                        if nondyadic_dt and iname == "nearest" and half_step(t, dt):
+                            scalar_res.pop(t)  # decided by float rounding: not compared, not used as a differential reference
+                            continue
                         # probes next to the 1e-6 tolerance band are not dyadic: float32 arithmetic is inexact there
-                        ex_ok = (exact_fn and (dyadic(t) or iname != "linear")) or kind == "exact"
+                        ex_ok = (exact_fn and ((dyadic(t) and not nondyadic_dt) or iname != "linear")) or kind == "exact"
                         if not all(close(g, x, ex_ok, 1e-5) for g, x in zip(got, exp)):
                             tally.violation(f"select:scalar:{kind}:{iname}", case, f"select({float(t)}) = {got}, reference {exp}", exp, got)
                     # ---- tensor time: pairs (quick: a rotating partner; linear/nearest at offset 1: all pairs)
@@ -224,7 +237,9 @@ def shard(dtf, N, tier, pushes_list=None):
                                     "mode": "tensor", "tdtype": str(tdtype)}
                             bad_in = locate(ta, dt, tol, N)[0] == "invalid" or locate(tb, dt, tol, N)[0] == "invalid"
                             tt = torch.tensor([float(ta), float(tb)], dtype=tdtype)
-                            if tdtype == torch.float32 and (F(float(tt[0])) != ta or F(float(tt[1])) != tb):
+                            if tdtype == torch.float32 and nondyadic_dt and max(abs(F(float(tt[0])) - ta), abs(F(float(tt[1])) - tb)) <= F(3, 10 ** 7):
+                                pass  # float32 rounding of the time is far inside the 1e-6 tolerance band
+                            elif tdtype == torch.float32 and (F(float(tt[0])) != ta or F(float(tt[1])) != tb):
                                 # non-dyadic probe (around tol=1e-6) is not representable in float32: the float32
                                 # tensor holds a different time, whose classification is decided by rounding
                                 continue
@@ -242,7 +257,7 @@ def shard(dtf, N, tier, pushes_list=None):
                                 tally.violation("select:tensor:rejected-valid", case, f"valid times rejected: {err}", "value", repr(err))
                                 continue
                             exp = [scalar_res[ta][0], scalar_res[tb][1]] if (ta in scalar_res and tb in scalar_res) else None
-                            ex_ok = exact_fn and ((dyadic(ta) and dyadic(tb)) or iname != "linear")
+                            ex_ok = exact_fn and ((dyadic(ta) and dyadic(tb) and not nondyadic_dt) or iname != "linear")
                             if exp is not None and not all(close(g, x, ex_ok) for g, x in zip(got, exp)):
                                 tally.violation(f"select:tensor!=scalar:{iname}", case, f"tensor-time select {got} but scalar-time "
                                                 f"selects give {exp}", exp, got)
@@ -260,7 +275,7 @@ def shard(dtf, N, tier, pushes_list=None):
                                                     "tol": float(tol), "time": t2.tolist(), "interp": iname, "mode": "tensorD"}, f"valid trailing-D times rejected: {ex!r}", None, repr(ex))
                                     continue
                                 exp = [[scalar_res[ta][0], scalar_res[tb][0]], [scalar_res[tb][1], scalar_res[ta][1]]]
-                                if not all(close(g, x, exact_fn) for gr, xr in zip(got, exp) for g, x in zip(gr, xr)):
+                                if not all(close(g, x, exact_fn and not nondyadic_dt) for gr, xr in zip(got, exp) for g, x in zip(gr, xr)):
                                     tally.violation(f"select:tensorD!=scalar:{iname}", {"op": "select", "dt": float(dt), "N": N, "pushes": pushes, "offset": off,
                                                     "tol": float(tol), "time": t2.tolist(), "interp": iname, "mode": "tensorD"},
                                                     f"trailing-D select {got} but scalar selects give {exp}", exp, got)
@@ -269,6 +284,8 @@ def shard(dtf, N, tier, pushes_list=None):
                     exact_fn = ename in ("previous", "next", "neighbors", "nearest")
                     for t in grid:
                         loc = locate(t, dt, tol, N)
+                        if nondyadic_dt and ename == "nearest" and half_step(t, dt):
+                            continue
                         for mode in ("scalar", "tensor"):
                             for inplace in (False, True):
                                 if quick and inplace and mode == "tensor" and off != 0:
@@ -319,13 +336,14 @@ def shard(dtf, N, tier, pushes_list=None):
                                 got = r2.storage_logical()
                                 okk = True
                                 illcond = ename in ("linear_forward", "linear_backward") and not dyadic(t)
+                                inexact = nondyadic_dt and ename in ("linear_forward", "linear_backward", "expdecay", "expratedecay")
                                 for k in range(N):
                                     for e in range(E):
                                         if expM[k][e] is None:
                                             continue
                                         if illcond and expM[k][e] != r2.M[k][e]:
                                             continue  # slope through a 1e-6 wide interval: value undefined in float32
-                                        if not close(got[k][e], expM[k][e], exact_fn or loc[0] == "exact"):
+                                        if not close(got[k][e], expM[k][e], (exact_fn or loc[0] == "exact") and not (nondyadic_dt and not exact_fn)):
                                             okk = False
                                 kind = loc[0]
                                 tally.mark("nontrivial", (float(dt), N, pushes % N, off, float(tol), float(t), ename, kind, mode, inplace))
@@ -360,7 +378,7 @@ def shard(dtf, N, tier, pushes_list=None):
 def run(rep):
     quick = rep.tier == "quick"
     jobs = []
-    for dtf in (1.0, 0.5):
+    for dtf in ((1.0, 0.5) if quick else (1.0, 0.5, 1.3)):
         for N in ((1, 2, 3, 4) if quick else (1, 2, 3, 4, 5)):
             for pushes in range(N, 2 * N):
                 jobs.append((shard, (dtf, N, rep.tier, [pushes])))
